@@ -352,6 +352,26 @@ def s_endswith(p, s, suf):
     return s_eq(p, SStr(s.cs[len(s.cs) - len(suf.cs):]), suf)
 
 
+def s_replace(p, s, old, new, count=-1):
+    """str.replace: left-to-right, non-overlapping; forks on each possible match position."""
+    s, old, new = expand(p, lift_str(s)), expand(p, lift_str(old)), lift_str(new)
+    m = len(old.cs)
+    if m == 0:
+        raise Unsupported("str.replace with an empty pattern")
+    out, i, done = [], 0, 0
+    while i < len(s.cs):
+        if i + m <= len(s.cs) and (count < 0 or done < count):
+            eq = s_eq(p, SStr(s.cs[i:i + m]), old)
+            if p.branch(eq) if not isinstance(eq, bool) else eq:
+                out.extend(new.cs)
+                i += m
+                done += 1
+                continue
+        out.append(s.cs[i])
+        i += 1
+    return SStr(out)
+
+
 def s_isdigit(p, s):
     if len(s.cs) == 1 and isinstance(s.cs[0], Render):
         return mk_bool(_lit(s.cs[0].n) >= 0)  # str(n) is all ASCII digits iff n >= 0
@@ -561,7 +581,7 @@ def float_cmp(p, f, op, bound):
     if bound != 0 and abs(bound) < 1:
         raise Unsupported("float comparison with a bound in (0, 1)")
     md = f.maxdigits
-    zero = z3.Or(f.m == 0, _underflow(f.m, f.k, md))  # finite and rounds to ±0
+    zero = z3.And(z3.Not(f.inf), z3.Or(f.m == 0, _underflow(f.m, f.k, md)))  # finite, rounds to ±0
     huge = z3.Or(f.inf, z3.And(f.m > 0, _overflow(f.m, f.k, md)))
     # within the string-length bound the decimal value is far from any representable bound's
     # rounding interval (see DESIGN §3.4), so exact rational comparison decides non-extreme cases
